@@ -224,6 +224,7 @@ def method_set(tier):
     add("W", [A.Prim("u8")], None)
     add("W", [], A.Result(A.Unit(), A.Prim("u8")))
     add("W", [A.ST], A.Result(A.Unit(), A.Unit()))
+    add("W", [A.Prim("u8")], A.NullableRet(A.Unit()))
     # ---- callbacks
     cbs = [([], None), ([A.Prim("u8")], None), ([A.Prim("i32"), A.Prim("f64")], A.Prim("u16")), ([A.EN], A.Prim("bool")), ([A.ST], A.Prim("u8")),
            ([A.Prim("u64"), A.Prim("u64"), A.Prim("u64"), A.Prim("u64"), A.Prim("u64"), A.Prim("u64"), A.Prim("u8")], A.Prim("i64")), ([A.Prim("f32")], A.Prim("f32"))]
@@ -790,6 +791,8 @@ def cpp_case(types, m, j, case):
         body.append('printf("W %d %d | ");' % (i, j))
         if m["ret"] is None:
             body.append("dump_slice((const unsigned char*)r.data(), r.size(), 1);")
+        elif isinstance(m["ret"], A.NullableRet):
+            body.append('if (r.has_value()) { printf("some(()) "); dump_slice((const unsigned char*)r->data(), r->size(), 1); } else printf("none -");')
         else:
             errd = 'printf("()");' if isinstance(m["ret"].err, A.Unit) else "auto errv = std::move(r).err(); %s" % m["ret"].err.cpp_dump("(*errv)")
             body.append('if (r.is_ok()) { auto okv = std::move(r).ok(); printf("ok(()) "); dump_slice((const unsigned char*)okv->data(), okv->size(), 1); } '
@@ -812,6 +815,11 @@ def cpp_case(types, m, j, case):
 
 def expected_line_cpp(m, j, case):
     e = expected_line(m, j, case)
+    if m["kind"] == "W" and isinstance(m["ret"], A.NullableRet):
+        ci, pv, rv = case
+        if rv is None:
+            return "W %d %d | none - | CALL %d:%s~" % (m["i"], j, m["i"], ";".join(t.dump(v) for t, v in zip(m["params"], pv)))
+        return e
     if m["kind"] == "W" and m["ret"] is not None and case[2][0] == "err":
         ci, pv, rv = case
         return "W %d %d | %s - | CALL %d:%s~" % (m["i"], j, m["ret"].dump(rv), m["i"], ";".join(t.dump(v) for t, v in zip(m["params"], pv)))
